@@ -158,7 +158,7 @@ Qed.
 (* observers that read only the merged journal and the flag map *)
 Lemma obs0_values_ext o s s' :
   all0 s' = all0 s -> kf0 s' = kf0 s ->
-  match o with OGet _ | OGetFlags _ | OLen | OSize | OIter _ _ _ | OIterFlags _ _ | OHist _ _ => obs0 o s' = obs0 o s | _ => True end.
+  match o with OGet _ | OGetFlags _ | OLen | OSize | OIter _ _ _ | OIterFlags _ _ _ | OHist _ _ => obs0 o s' = obs0 o s | _ => True end.
 Proof.
   intros Ea Ek. destruct o; try exact I; cbn [obs0]; unfold size0, flags_of0; rewrite ?Ea, ?Ek; reflexivity.
 Qed.
